@@ -38,9 +38,27 @@ type WEmbIdx struct {
 	Audit WEmbIdxInner `sql:"embedded_prefix:audit_"`
 }
 
+// seeded change C06-g: a struct flattened with plain `squash` inside a struct embedded with a prefix keeps the outer prefix
+type WSqInner struct {
+	CreatedAt string
+}
+
+type WSqMid struct {
+	Note string
+	Meta WSqInner `sql:"squash"`
+}
+
+type WSqOuter struct {
+	ID   int    `sql:"primary_key"`
+	Base WSqMid `sql:"embedded_prefix:meta_"`
+}
+
 var my = structCfg{dialect: "mysql", tagKey: "sql"}
 
 var witnessCases = []structCase{
+	{id: "wst-squash-in-prefixed-embedded", cfg: my, obj: WSqOuter{},
+		decl:   `(decl "WSqOuter" "" ((field "ID" int "int" "primary_key") (field "Base" (struct ((field "Note" string "string" "") (field "Meta" (struct ((field "CreatedAt" string "string" ""))) "WSqInner" "squash"))) "WSqMid" "embedded_prefix:meta_")))`,
+		expect: `(expect "w_sq_outer" ((col "id" "INT" ("pk") true) (col "meta_note" "TEXT" () false) (col "meta_created_at" "TEXT" () false)) () ())`},
 	{id: "wst-index-in-prefixed-embedded", cfg: my, obj: WEmbIdx{},
 		decl:   `(decl "WEmbIdx" "" ((field "ID" int "int" "primary_key") (field "Audit" (struct ((field "Code" string "string" "index_type:hash") (field "Zone" string "string" "index"))) "WEmbIdxInner" "embedded_prefix:audit_")))`,
 		expect: `(expect "w_emb_idx" ((col "id" "INT" ("pk") true) (col "audit_code" "TEXT" () false) (col "audit_zone" "TEXT" () false)) ((idx "idx_audit_code" ("audit_code") false "HASH") (idx "idx_audit_zone" ("audit_zone") false "")) () ())`},
